@@ -5000,7 +5000,8 @@ func (formalArgs createArgsMapped) exec(vm *vm) {
 				configurable: true,
 				enumerable:   true,
 			},
-			v: &vm.stash.values[i],
+			stash: vm.stash,
+			idx:   i,
 		})
 	}
 
